@@ -321,6 +321,12 @@ def hdl21_naming_encoder(obj: Any) -> Any:
         # Same for bare decimals: `Decimal("2")` and `Decimal("2.0")` are equal
         return {"decimal": _value_name(obj)}
 
+    if isinstance(obj, (set, frozenset)):
+        # Sets have no order of their own: they iterate in an order which depends on the process (string hashing is
+        # randomized) and on how they were built, while equal sets are one parameter value.
+        # Name them by the *sorted* JSON texts of their members.
+        return sorted(json.dumps(x, default=hdl21_naming_encoder, sort_keys=True) for x in obj)
+
     if isinstance(obj, (Module, ExternalModule, Generator)):
         # Use qualified class names/paths
         return module_qualname(obj)
